@@ -841,6 +841,17 @@ def c15_cases(ctx):
                 ops += ["zdinit %d 8 15 9 %d" % (rng.choice(levels), rng.range(0, 4)), "zcall deflate @ %d 4" % max(1, bound(n))]
             k += 1
             ctx.add("b%d" % k, ops, kind="bound", data=data, n=n)
+    # directed: every literal costs 9 bits in a fixed-Huffman block, and a block of the one-probe fast path grows to
+    # ~58 KiB of input, beyond the 32 KiB window, where the stored-block fallback is no longer available
+    big = [32769, 40000, 58254, 70000, 100000] + ([200000, 1 << 20] if ctx.tier == "thorough" else [])
+    for n in big:
+        data = bytes(rng.range(144, 255) for _ in range(n))
+        ops = ["in %s" % hx(data), "mzbound %d" % n]
+        for lv in ([1, 2, 6] if n <= 58254 or ctx.tier == "thorough" else [1, rng.choice([2, 4, 6, 9])]):
+            for st in (4, 0):
+                ops += ["zdinit %d 8 15 9 %d" % (lv, st), "zcall deflate @ %d 4" % bound(n)]
+        k += 1
+        ctx.add("s%d" % k, ops, kind="bound", data=data, n=n)
     # the level-0 size formula is exact: |out| = 2 + n + 5*(floor(n/31745)+1) + 4
     for n in [0, 1, 31744, 31745, 31746, 63490, 63491, 100000]:
         k += 1
@@ -848,7 +859,7 @@ def c15_cases(ctx):
 
 
 def bound(n):
-    return max(128 + (n * 110) // 100, 128 + n + ((n // (31 * 1024)) + 1) * 5)
+    return 128 + n + n // 8 + ((n // (31 * 1024)) + 1) * 5
 
 
 def c15_eval(ctx):
@@ -922,5 +933,6 @@ PROP_THEOREMS = {
     "C11": ["C11_window_limit_routing", "C11_declared_window"],
     "C12": ["C12_sync_marker_is_empty_stored_block"],
     "C14": ["C14_empty_output_refused", "C14_done_is_stable", "C14_nonfinish_after_finish_is_error"],
-    "C15": ["C15_bound_formula", "C15_bound_monotone", "C15_level0_size_within_bound_partial"],
+    "C15": ["C15_bound_formula", "C15_bound_monotone", "C15_level0_size_within_bound_partial", "C15_bound_allows_nine_bits_per_byte",
+            "C15_bound_dominates_miniz_formula"],
 }
